@@ -126,32 +126,17 @@ Proof.
   destruct (all_some (map (gf_match K NO T inp) a)); [|discriminate]. intros E. injection E as <-. reflexivity.
 Qed.
 
-(** exact form (total comparator): the source's compute returns exactly the model's term list *)
-Theorem gf_part_compute_src_total (lenient : bool) (T : tols K) (blk : nat * nat) (inp : part_in K) :
-  (forall a b, gf_compare K NO (t_compare K T) a b = false -> gf_compare K NO (t_compare K T) b a = true) ->
+(** the source's compute returns exactly the model's term list: for every comparator, every tolerance, every input
+    (PV.TermList.add_term is the retry loop the source has: LehmannGenProofs.add_terms_ref_is_termlist) *)
+Theorem gf_terms_src_is_model (T : tols K) (ts : list gterm) : gf_terms_src T ts = fst (gf_add_terms K NO T ts).
+Proof. unfold gf_terms_src, gf_add_terms. apply add_terms_ref_is_termlist. Qed.
+
+Theorem gf_part_compute_src_agrees (lenient : bool) (T : tols K) (blk : nat * nat) (inp : part_in K) :
   forall o, gf_part_compute K NO gf_chase_guarded lenient T inp = WDone o ->
   gf_part_compute_src K NO lenient T blk inp = WDone (o_terms K o).
 Proof.
-  intros Ht o E. rewrite gf_part_compute_src_is_model, E. cbn [wmap]. f_equal.
-  rewrite (gf_part_compute_terms _ _ _ _ _ E). unfold gf_terms_src, gf_add_terms.
-  apply add_terms_ref_is_termlist_total. exact Ht.
-Qed.
-
-(** tolerance form (strict partial order as comparator): the same whenever no added term is like two stored ones *)
-Definition gf_unambiguous (T : tols K) (ts : list gterm) : bool :=
-  unambiguous K K (gf_compare K NO (t_compare K T)) (gf_negligible K NO (t_negligible K T)) (gf_term_add K NO) ts [].
-
-Theorem gf_part_compute_src_strict (lenient : bool) (T : tols K) (blk : nat * nat) (inp : part_in K) :
-  (forall a, gf_compare K NO (t_compare K T) a a = false) ->
-  (forall a b c, gf_compare K NO (t_compare K T) a b = true -> gf_compare K NO (t_compare K T) b c = true ->
-                 gf_compare K NO (t_compare K T) a c = true) ->
-  forall o, gf_part_compute K NO gf_chase_guarded lenient T inp = WDone o ->
-  gf_unambiguous T (kept K (o_raw K o)) = true ->
-  gf_part_compute_src K NO lenient T blk inp = WDone (o_terms K o).
-Proof.
-  intros Hi Htr o E U. rewrite gf_part_compute_src_is_model, E. cbn [wmap]. f_equal.
-  rewrite (gf_part_compute_terms _ _ _ _ _ E). unfold gf_terms_src, gf_add_terms.
-  apply add_terms_ref_is_termlist; [exact Hi|exact Htr|exact I|exact U].
+  intros o E. rewrite gf_part_compute_src_is_model, E. cbn [wmap]. f_equal.
+  rewrite (gf_part_compute_terms _ _ _ _ _ E). apply gf_terms_src_is_model.
 Qed.
 
 (** the converse direction: whatever the source's compute returns, the model returns too *)
@@ -218,24 +203,22 @@ Theorem gf_matsubara_src_is_model (kpi beta : K) (n : Z) :
 Proof. split; reflexivity. Qed.
 
 (** * the whole object, exact form *)
-Lemma gf_part_compute_src_total_eq (lenient : bool) (T : tols K) (blk : nat * nat) (inp : part_in K) :
-  (forall a b, gf_compare K NO (t_compare K T) a b = false -> gf_compare K NO (t_compare K T) b a = true) ->
+Lemma gf_part_compute_src_eq (lenient : bool) (T : tols K) (blk : nat * nat) (inp : part_in K) :
   gf_part_compute_src K NO lenient T blk inp = wmap (o_terms K) (gf_part_compute K NO gf_chase_guarded lenient T inp).
 Proof.
-  intros Ht. destruct (gf_part_compute K NO gf_chase_guarded lenient T inp) as [o| | |] eqn:E.
-  - rewrite (gf_part_compute_src_total K NO lenient T blk inp Ht o E). reflexivity.
+  destruct (gf_part_compute K NO gf_chase_guarded lenient T inp) as [o| | |] eqn:E.
+  - rewrite (gf_part_compute_src_agrees K NO lenient T blk inp o E). reflexivity.
   - rewrite gf_part_compute_src_is_model, E. reflexivity.
   - rewrite gf_part_compute_src_is_model, E. reflexivity.
   - rewrite gf_part_compute_src_is_model, E. reflexivity.
 Qed.
 
-Theorem gf_compute_src_total (lenient : bool) (T : tols K) (g : gf_in K) :
-  (forall a b, gf_compare K NO (t_compare K T) a b = false -> gf_compare K NO (t_compare K T) b a = true) ->
+Theorem gf_compute_src_eq (lenient : bool) (T : tols K) (g : gf_in K) :
   gf_compute_src K NO lenient T g = wmap terms_of_parts (gf_compute K NO gf_chase_guarded lenient T g).
 Proof.
-  intros Ht. unfold gf_compute_src, gf_compute. destruct (gf_prepare K g) as [ps|]; [|reflexivity].
+  unfold gf_compute_src, gf_compute. destruct (gf_prepare K g) as [ps|]; [|reflexivity].
   induction ps as [|[lr inp] ps IH]; [reflexivity|].
-  cbn [gf_compute_parts_src compute_parts]. rewrite (gf_part_compute_src_total_eq lenient T lr inp Ht).
+  cbn [gf_compute_parts_src compute_parts]. rewrite (gf_part_compute_src_eq lenient T lr inp).
   destruct (gf_part_compute K NO gf_chase_guarded lenient T inp) as [o| | |]; cbn [wmap wbind]; try reflexivity.
   rewrite IH. destruct (compute_parts K NO gf_chase_guarded lenient T ps); reflexivity.
 Qed.
@@ -275,32 +258,27 @@ Theorem gf_part_exact_src (T : tols K) :
   gf_part_value_src K NO terms beta z = gf_part_spec K NO inp z.
 Proof.
   intros Hr Ht lenient blk inp W terms beta z E.
-  rewrite (gf_part_compute_src_total_eq K NO lenient T blk inp Ht) in E.
+  rewrite (gf_part_compute_src_eq K NO lenient T blk inp) in E.
   destruct (gf_part_compute K NO gf_chase_guarded lenient T inp) as [o| | |] eqn:Em; cbn [wmap] in E; try discriminate E.
   injection E as <-. rewrite gf_part_value_src_is_model.
   exact (GFPartProofs.gf_part_exact K NO kinv (F_R Kf) (Fdiv_def Kf) T Hr Ht gf_chase_guarded lenient inp W o z Em).
 Qed.
 
-(** tolerance form: whenever no added term is like two stored ones, the source computes the model's term list, and the
-    error bound of C01 holds of the value the source returns *)
+(** tolerance form: the source computes the model's term list (no hypothesis), and the error bound of C01 holds of the value
+    the source returns *)
 Theorem gf_part_tolerance_src (norm : K -> R) :
   (forall a b, (norm (nadd K NO a b) <= norm a + norm b)%R) -> (forall a, norm (nopp K NO a) = norm a) -> norm (n0 K NO) = 0%R ->
-  forall (T : tols K),
-  (forall a, gf_compare K NO (t_compare K T) a a = false) ->
-  (forall a b c, gf_compare K NO (t_compare K T) a b = true -> gf_compare K NO (t_compare K T) b c = true ->
-                 gf_compare K NO (t_compare K T) a c = true) ->
-  forall (lenient : bool) (blk : nat * nat) (inp : part_in K), part_wf K inp ->
+  forall (T : tols K) (lenient : bool) (blk : nat * nat) (inp : part_in K), part_wf K inp ->
   forall (o : part_out K) (beta z : K),
   gf_part_compute K NO gf_chase_guarded lenient T inp = WDone o ->
-  gf_unambiguous K NO T (kept K (o_raw K o)) = true ->
   gf_part_compute_src K NO lenient T blk inp = WDone (o_terms K o) /\
   (norm (nsub K NO (gf_part_value_src K NO (o_terms K o) beta z) (gf_part_spec K NO inp z)) <=
    rsum (dropped K (o_raw K o)) (fun t => norm (fz K NO z t)) +
    rsum2 (o_events K o) (kept K (o_raw K o))
          (fun e t => norm (ev_err K K K (n0 K NO) (nadd K NO) (nsub K NO) (fz K NO z) e t)))%R.
 Proof.
-  intros N1 N2 N3 T Hi Htr lenient blk inp W o beta z E U. split.
-  - exact (gf_part_compute_src_strict K NO lenient T blk inp Hi Htr o E U).
+  intros N1 N2 N3 T lenient blk inp W o beta z E. split.
+  - exact (gf_part_compute_src_agrees K NO lenient T blk inp o E).
   - rewrite gf_part_value_src_is_model.
     exact (GFPartProofs.gf_part_tolerance K NO kinv (F_R Kf) (Fdiv_def Kf) norm N1 N2 N3 gf_chase_guarded lenient T inp W o z E).
 Qed.
@@ -316,16 +294,18 @@ Theorem gf_blocks_eq_full_src (T : tols K) :
   gf_value_src K NO parts beta z = Some (gf K NO E w Ci CXj z).
 Proof.
   intros Hr Ht nb dim g Cf CXf Bs E w Ci CXj As lenient beta z parts Ec.
-  rewrite (gf_compute_src_total K NO lenient T g Ht) in Ec.
+  rewrite (gf_compute_src_eq K NO lenient T g) in Ec.
   destruct (gf_compute K NO gf_chase_guarded lenient T g) as [mp| | |] eqn:Em; cbn [wmap] in Ec; try discriminate Ec.
   injection Ec as <-. rewrite gf_value_src_is_model. f_equal.
   exact (GFFullProofs.gf_blocks_eq_full K NO kinv (F_R Kf) (Fdiv_def Kf) T Hr Ht nb dim g Cf CXf Bs E w Ci CXj As gf_chase_guarded lenient z mp Em).
 Qed.
 End Transport.
 
-(** * the hypotheses are satisfiable *)
-(** tolerance form, over the integers (comparator: p2 - p1 >= 10, a strict partial order): two like poles are merged,
-    every added term is like at most one stored term, and the source's compute returns the model's term list *)
+(** * examples *)
+(** tolerance form, over the integers (comparator: p2 - p1 >= 10, a strict partial order).
+    [exZ_inp]: two like poles (0 and 3) are merged.
+    [exZ2_inp]: the third pole, 8, is like BOTH stored poles 0 and 15: the source and the model merge it into the upper one
+    (the former find / erase / insert form merged it into the lower one: LehmannGenProofs.add_term_forms_differ) *)
 Definition ZopsL : numops Z :=
   {| n0 := 0%Z; n1 := 1%Z; nadd := Z.add; nsub := Z.sub; nmul := Z.mul; ndiv := Z.quot; nopp := Z.opp; nconj := fun x => x;
      nexp := fun x => x; nre_ltb := Z.ltb; nabs := Z.abs; nofZ := fun x => x; nI := 0%Z |}.
@@ -333,6 +313,8 @@ Definition TZ : tols Z := mktols Z 0%Z 10%Z 0%Z 0%Z.
 (** C = [[1, 1, 1]] (one outer state, three inner ones), CX likewise; inner energies 0, 3, 50: the poles 0 and 3 are like *)
 Definition exZ_inp : part_in Z :=
   mkpart Z (mkcs 3%nat [0; 3]%nat [0; 1; 2]%nat [1; 1; 1]%Z) (mkcs 3%nat [0; 3]%nat [0; 1; 2]%nat [1; 1; 1]%Z) [0%Z] [0; 3; 50]%Z [1%Z] [2; 3; 4]%Z.
+Definition exZ2_inp : part_in Z :=
+  mkpart Z (mkcs 3%nat [0; 3]%nat [0; 1; 2]%nat [1; 1; 1]%Z) (mkcs 3%nat [0; 3]%nat [0; 1; 2]%nat [1; 1; 1]%Z) [0%Z] [0; 15; 8]%Z [1%Z] [2; 3; 4]%Z.
 Lemma TZ_irrefl : forall a, gf_compare Z ZopsL (t_compare Z TZ) a a = false.
 Proof. intros a. unfold gf_compare. cbn. rewrite Z.sub_diag. reflexivity. Qed.
 Lemma TZ_trans : forall a b c, gf_compare Z ZopsL (t_compare Z TZ) a b = true -> gf_compare Z ZopsL (t_compare Z TZ) b c = true ->
@@ -342,11 +324,19 @@ Proof.
 Qed.
 Example ex_gf_src_tolerance :
   exists o, gf_part_compute Z ZopsL gf_chase_guarded false TZ exZ_inp = WDone o /\
-            gf_unambiguous Z ZopsL TZ (kept Z (o_raw Z o)) = true /\
             o_terms Z o = [(0, 7); (50, 5)]%Z /\
             gf_part_compute_src Z ZopsL false TZ (0, 1)%nat exZ_inp = WDone (o_terms Z o).
 Proof.
-  eexists. split; [vm_compute; reflexivity|]. split; [vm_compute; reflexivity|]. split; [reflexivity|].
+  eexists. split; [vm_compute; reflexivity|]. split; [reflexivity|].
+  vm_compute. reflexivity.
+Qed.
+Example ex_gf_src_two_likes :
+  exists o, gf_part_compute Z ZopsL gf_chase_guarded false TZ exZ2_inp = WDone o /\
+            o_terms Z o = [(0, 3); (15, 9)]%Z /\
+            o_events Z o = [EvChain [] FinInserted; EvChain [] FinInserted; EvChain [((15, 4), (15, 9))%Z] FinInserted] /\
+            gf_part_compute_src Z ZopsL false TZ (0, 1)%nat exZ2_inp = WDone (o_terms Z o).
+Proof.
+  eexists. split; [vm_compute; reflexivity|]. split; [reflexivity|]. split; [reflexivity|].
   vm_compute. reflexivity.
 Qed.
 
@@ -372,7 +362,7 @@ Example ex_gf_src_exact (beta z : R) :
 Proof.
   destruct (gf_part_compute_fixed R Rops false T0 ex_inp ex_part_wf) as [o Eo].
   exists (o_terms R o). assert (E : gf_part_compute_src R Rops false T0 (0, 1)%nat ex_inp = WDone (o_terms R o)).
-  { rewrite (gf_part_compute_src_total_eq R Rops false T0 (0, 1)%nat ex_inp T0_cmp). change gf_chase_guarded with true. rewrite Eo. reflexivity. }
+  { rewrite (gf_part_compute_src_eq R Rops false T0 (0, 1)%nat ex_inp). change gf_chase_guarded with true. rewrite Eo. reflexivity. }
   split; [exact E|].
   exact (gf_part_exact_src R Rops Rinv Rfield T0 T0_rel T0_cmp false (0, 1)%nat ex_inp ex_part_wf (o_terms R o) beta z E).
 Qed.
